@@ -90,7 +90,8 @@ class CommitCase:
 
 def prepare(rng, sb):
     """random short history ending right before a commit; returns CommitCase"""
-    files = {"a.txt": b"hello", "b.txt": b"world", "c.txt": b"hello", "d/e.txt": b"x" * 50, "f.bin": b"\x00\x01"}
+    files = {"a.txt": b"hello", "b.txt": b"world", "c.txt": b"hello", "d/e.txt": b"x" * 50, "f.bin": b"\x00\x01",
+             "back\\slash.txt": b"a name with a backslash", "d/sp ace\\x.txt": b"hello"}
     for n, c in files.items():
         p = os.path.join(sb.src, n)
         os.makedirs(os.path.dirname(p), exist_ok=True)
